@@ -110,12 +110,47 @@ def step(op, arg):
         b = io.BytesIO()
         psd.save(b)
         return sha(b.getvalue())
+    if op == "struct_save":
+        from psd_tools.api.layers import Group
+        psd = PSDImage.open(arg)
+        Group.new("added", parent=psd)
+        b = io.BytesIO()
+        psd.save(b)
+        return sha(b.getvalue())
+    if op == "preview":
+        psd = PSDImage.open(arg)
+        return repr((psd.has_preview(), sorted(str(k) for k in psd.image_resources.keys())))
+    if op == "pattern_edit_composite":
+        # edit the first embedded pattern (invert its planes), then render: an edit of THIS document only
+        import numpy as np
+        from psd_tools.composite import composite
+        from psd_tools.constants import Tag
+        psd = PSDImage.open(arg)
+        done = False
+        for key in (Tag.PATTERNS1, Tag.PATTERNS2, Tag.PATTERNS3):
+            pats = psd.tagged_blocks.get_data(key) if psd.tagged_blocks else None
+            for pat in (pats or []):
+                for ch in pat.data.channels:
+                    if ch.is_written and ch.data:
+                        raw = ch.get_data()
+                        ch.set_data((ch.rectangle[3], ch.rectangle[2]), bytes(255 - x for x in raw), ch.pixel_depth, ch.compression)
+                        done = True
+                if done:
+                    break
+            if done:
+                break
+        if psd.width * psd.height > 400 * 400:
+            return "skipped-large"
+        c, s_, a = composite(psd, force=True)
+        return sha(np.ascontiguousarray(c).tobytes()) + (":edited" if done else ":no-pattern")
     if op == "build":
         from PIL import Image
         from psd_tools.api.layers import Group, PixelLayer
-        w = int(arg)
-        psd = PSDImage.new("RGB", (w, w))
-        im = Image.new("RGB", (w, w), (10, 20, 30))
+        parts = str(arg).split(":")
+        w = int(parts[0])
+        depth = int(parts[1]) if len(parts) > 1 else 8
+        psd = PSDImage.new("RGB", (w, w), depth=depth)
+        im = Image.new("RGB", (w, w), (0, 0, 30))          # two all-zero planes: empty RLE rows
         layer = PixelLayer.frompil(im, psd, "L1")
         psd.append(layer)
         g = Group.new("G", parent=psd)
